@@ -478,3 +478,17 @@ V("C20", "setpoi-unchecked", "fire", "C20.R6", "set_poi accepts undeclared names
   (PDFF, "        if name not in self.parameters:\n            raise exceptions.InvalidModel(\n                f\"The parameter of interest '{name:s}' cannot be fit as it is not declared in the model specification.\"\n            )\n", ""))
 V("C20", "normsys-shared-data-dependent", "fire", "C20.R3", "normsys requirement made data dependent while registered first-wins",
   (MD + "normsys.py", "        'inits': (0.0,),\n        'bounds': ((-5.0, 5.0),),\n        'fixed': False,\n        'auxdata': (0.0,),\n    }\n\n\nclass normsys_builder", "        'inits': (0.0,),\n        'bounds': ((-5.0 * max(1.0, modifier_data['hi']), 5.0),),\n        'fixed': False,\n        'auxdata': (0.0,),\n    }\n\n\nclass normsys_builder"))
+V("C01", "einsum-sample-axis", "fire", "C01.R6", "normfactor parameter spread over the sample axis",
+  (MD + "normfactor.py", "'msab,m->msab', self.normfactor_mask, normfactors", "'msab,s->msab', self.normfactor_mask, normfactors"))
+V("C01", "histoset-slots-swapped", "fire", "C01.R6", "histosys hands (hi, nom, lo) to the interpolator",
+  (MD + "histosys.py", "                    builder_data[m][s]['data']['lo_data'],\n                    builder_data[m][s]['data']['nom_data'],\n                    builder_data[m][s]['data']['hi_data'],", "                    builder_data[m][s]['data']['hi_data'],\n                    builder_data[m][s]['data']['nom_data'],\n                    builder_data[m][s]['data']['lo_data'],"))
+V("C01", "normsys-collect-swapped", "fire", "C01.R6", "normsys builder stores hi as lo",
+  (MD + "normsys.py", "        lo_factor = thismod['data']['lo'] if thismod else 1.0\n        hi_factor = thismod['data']['hi'] if thismod else 1.0", "        lo_factor = thismod['data']['hi'] if thismod else 1.0\n        hi_factor = thismod['data']['lo'] if thismod else 1.0"))
+V("C01", "einsum-letters-renamed", "silent", "", "einsum letters renamed consistently",
+  (MD + "lumi.py", "'msab,x->msab', self.lumi_mask, lumis", "'ijkl,z->ijkl', self.lumi_mask, lumis"))
+V("C16", "left-outer-overwrites", "fire", "C16.R6", "left outer join appends clashing right items too",
+  (WSF, "                join in ['left outer', 'right outer']\n                and secondary_item[key] not in keys", "                join in ['left outer', 'right outer']\n                and secondary_item not in primary_items"))
+V("C16", "right-outer-primary", "fire", "C16.R6", "right outer join keeps the left as primary",
+  (WSF, "    if join == 'right outer':\n        primary_items, secondary_items = right_items, left_items", "    if join == 'right outer ':\n        primary_items, secondary_items = right_items, left_items"))
+V("C02", "main-pdf-normal", "fire", "C02.R3", "logpdf evaluates data and parameters exchanged",
+  (PDFF, "            result = self.make_pdf(pars).log_prob(data)", "            result = self.make_pdf(data).log_prob(pars)"))
